@@ -121,6 +121,7 @@ class Interp:
         self.raise_terms: dict[int, tuple] = {}
         self.unknown_calls: set[str] = set()
         self.sym_shapes: dict[str, tuple] = {}
+        self._owners: list = []  # defining class (None for module-level functions) of the functions being interpreted
         self.scans: list[dict] = []
         self.call_log: list[str] = []
         self.attr_writes: list[tuple[str, tuple, int]] = []
@@ -146,6 +147,7 @@ class Interp:
         if self.depth > self.max_depth:
             self.depth -= 1
             raise Unsupported(f"inlining depth {self.max_depth} exceeded at {getattr(fn, 'name', '<lambda>')}")
+        self._owners.append(owner if not isinstance(fn, ast.Lambda) else (self._owners[-1] if self._owners else owner))
         try:
             env = dict(closure_env or {})
             env.update(self.bind(fn, args, kw, is_method, owner, module))
@@ -160,6 +162,7 @@ class Interp:
             return r if r is not None else NONE
         finally:
             self.depth -= 1
+            self._owners.pop()
 
     def bind(self, fn, args, kw, is_method, owner, module):
         a = fn.args
@@ -788,7 +791,7 @@ class Interp:
         if r is not None:
             owner, fn = r
             decs = [ast.unparse(d) for d in fn.decorator_list]
-            if "property" in decs:
+            if any(d.split(".")[-1] in ("property", "cached_property") for d in decs):
                 return self.call_fn(fn, [], {}, owner, owner.module, True)
             return ("method", owner, fn)
         ca = self.ct.class_attr(self.cls, name)
@@ -966,6 +969,8 @@ class Interp:
                     return INF
                 return ("app", name, (a,))
             if name == "int" and not (is_num(a) and a[1].denominator == 1):
+                if (self.cls is None or (self._owners and self._owners[-1] is None)) and _integer_polynomial(a):
+                    return a  # in a module-level utility: int() of a +,-,* combination of array elements with integer coefficients
                 return ("app", "int", (a,))  # truncation is not value-transparent
             return a  # float() of a number is value-transparent
         if name in ("tuple", "list"):
@@ -1475,6 +1480,18 @@ def _vector_items(t):
     return None
 
 
+def _integer_polynomial(t) -> bool:
+    """a ring expression with integer coefficients over symbols / elements (no division, no float constants)"""
+    k = t[0]
+    if k in ("sym", "elem", "ix"):
+        return True
+    if k == "const":
+        return is_num(t) and t[1].denominator == 1
+    if k == "poly":
+        return all(c.denominator == 1 and all(p >= 0 and _integer_polynomial(a) for a, p in mono) for mono, c in t[1])
+    return False
+
+
 def _is_term(v) -> bool:
     return isinstance(v, tuple) and bool(v) and isinstance(v[0], str)
 
@@ -1624,6 +1641,10 @@ def _dtype_visible(I, d):
     what is stored into them."""
     static_int = (d[0] == "mod" and d[1].split(".")[-1] in ("int32", "int64", "int16", "int8", "uint8", "uint32", "int_", "bool_")) or d in (("builtin", "int"), ("builtin", "bool"))
     in_problem = I.cls is None or any(k.name in ("Problem", "BatchProcessor") for k in I.ct.mro(I.cls))
+    # the widest float is what these constructors produce anyway when double precision is on (C20): spelling it out changes nothing
+    default_float = d == ("builtin", "float") or (d[0] == "mod" and d[1].split(".")[-1] in ("float64", "float_", "double"))
+    if default_float:
+        return False
     return not (static_int and in_problem) and not (in_problem and d[0] == "app" and d[1] == "dtype")
 
 
